@@ -102,9 +102,11 @@ Rect(r, c) == [gc |-> c, rows |-> RectRows(r, c)]
 
 \* fresh tables; tables carrying merges / nested tables built through the API; the same
 \* saved and reopened ("..o"); ragged tables synthesised as XML and opened
-FreshStarts == {"1x1", "1x3", "3x1", "2x2", "3x3"}
+\* in22 / in32: the table under test is a nested table as AddNestedTable returns it (abstractly a fresh table)
+FreshStarts == {"1x1", "1x3", "3x1", "2x2", "3x3", "in22", "in32"}
 MergedStarts == {"h3", "v3", "r3", "n2", "nn3", "vv4"}
-OpenedStarts == {"h3o", "v3o", "r3o", "rag", "rag2"}
+\* bare3: a rectangular table opened from a part whose cells carry no w:tcPr (optional in the schema)
+OpenedStarts == {"h3o", "v3o", "r3o", "rag", "rag2", "bare3"}
 AllStarts == FreshStarts \cup MergedStarts \cup OpenedStarts
 
 \* ---- the reference machine --------------------------------------------------
@@ -283,7 +285,8 @@ VV4 == ApplyOp(ApplyOp(Rect(4, 2), [op |-> "MergeCellsVertical", a |-> 0, b |-> 
                [op |-> "MergeCellsVertical", a |-> 2, b |-> 3, c |-> 0])
 StartTbl(k) ==
   CASE k = "1x1" -> Rect(1, 1) [] k = "1x3" -> Rect(1, 3) [] k = "3x1" -> Rect(3, 1)
-    [] k = "2x2" -> Rect(2, 2) [] k = "3x3" -> Rect(3, 3)
+    [] k = "2x2" -> Rect(2, 2) [] k \in {"3x3", "bare3"} -> Rect(3, 3)
+    [] k = "in22" -> Rect(2, 2) [] k = "in32" -> Rect(3, 2)
     [] k \in {"h3", "h3o"} -> H3
     [] k \in {"v3", "v3o"} -> V3
     [] k \in {"r3", "r3o"} -> R3
